@@ -24,6 +24,13 @@ class Infeasible(Exception):
     pass
 
 
+def _guarded(s, budget_ms):
+    try:
+        return s.check()
+    except z3.Z3Exception:
+        return z3.unknown
+
+
 class VC:
     __slots__ = ("name", "kind", "hyps", "goal", "props", "role", "func", "where", "note", "path",
                  "status", "backend", "time", "model", "detail", "derived")
@@ -240,7 +247,7 @@ class PathCtx:
             for h in self.hyps:
                 s_.add(h)
             s_.add(f)
-            if s_.check() == z3.unsat:
+            if _guarded(s_, timeout_ms) == z3.unsat:
                 return val
         return None
 
@@ -252,7 +259,7 @@ class PathCtx:
     def _feasible(self, t):
         self.solver.push()
         self.solver.add(t)
-        r = self.solver.check()
+        r = _guarded(self.solver, self.run.branch_timeout_ms)
         self.solver.pop()
         return r != z3.unsat
 
